@@ -9,28 +9,28 @@ TEXT = {
     "C03": "partial proof: at the block layer no textual byte is lost or duplicated, for every input (no_duplication, no_loss); after the inline pass no byte is covered twice (C03_no_dup_partial, under the executable entry condition evaluated on the implementation's trees); coverage through the inline parser decided by leaf-span correspondence plus the coverage oracle",
     "C04": "partial proof: the block layer is total for every input (parseBlocks_total: no panic site, no fuel exhaustion), Walk and readline terminate with stated fuel, renderer/formatter models are total; remaining fuel sufficiency observed on the model (no fuel code on any case) and the implementation run under recover + watchdog in all 30 configurations",
     "C05": "full proof on the model of the node grammar for every input: block level (parseFull_gramBlocks), inline level incl. no link in a link and title-follows-destination (ComposeGram.parseFull_gramI), canContain closure, entry kinds, reference closure, item-number range; accessor agreement decided by kind/accessor correspondence through both entry points plus the grammar oracle",
-    "C06": "denotation oracle on serialised abstract documents (generator + CommonMark 0.30 denotation in lib/docgen.py) plus model/implementation HTML correspondence; supporting theorems only (recognizers = definitions, renderer = structural reading); the whole-pipeline statement is not proved",
+    "C06": "partial proof: whole-pipeline statement proved on four slices for inputs of any length (escaped text, verbatim fenced code, emphasis nests = the spec's delimiter procedure, a shortcut reference against one definition); for general documents: denotation oracle on serialised abstract documents (lib/docgen.py) plus model/implementation HTML correspondence",
     "C07": "full proof on the model: C07_final (for every input, every reference matcher, every configuration without tag filter, rendered HTML is in the safe grammar); C07_render_safeW holds for every tree whose leaves satisfy bokW and the run evaluates bokW on the implementation's own trees; tie: model renderer on the implementation's tree = implementation's bytes",
     "C08": "full proof on the stream-layer model: readline under any read schedule (readline_sim), whole NextBlock (next_block_sim), whole runs and the fault clause (C08_stream_eq, C08_fault), any block machine satisfying three stated laws; tie: streaming implementation under generated schedules/faults vs the in-memory model on the delivered prefix",
-    "C09": "nesting oracle on the implementation (D vs contents of quote(D) / item(D), safe-mode HTML) plus model/implementation correspondence on each variant; no theorem states the nesting property yet (supporting invariants only)",
+    "C09": "partial proof: the nesting property proved end to end on a slice (text lines of any length behind '> ', also several lines forming one paragraph; one line behind a bullet or ordered marker: SliceNest, SliceMulti); for general documents: nesting oracle on the implementation (D vs contents of quote(D) / item(D), safe-mode HTML) plus model/implementation correspondence on each variant",
     "C10": "full proof on the model: Walk with the renderer's callbacks writes exactly the structural reading renderB of the tree, for every block and configuration (C10_appendBlock, walk_is_spec); tie: the structural renderer run on the implementation's own tree dump reproduces the implementation's bytes in all 30 configurations; determinism / tree untouched / joining observed on the implementation",
     "C11": "proof that the openers_bottom search bounds never change the result of process-emphasis (abstract lists of any length, and on the transcription of processEmphasis); full statement proved end to end on a vertical slice (C11_slice: lines of any length over letters, spaces, '*', '_' and a few ASCII punctuation bytes parse to exactly the forest the spec's delimiter-run procedure denotes); flanking flags and tokenisation tied by exhaustive correspondence up to a length bound; oracle = independent transcription of the spec procedure without the bound",
     "C12": "partial proof: closure clause for every input and matcher (C12_closure), Extract = first-wins fold in source order; label normalisation tied through the generated case-folding table and judged against an independent normaliser on generated label pairs",
     "C13": "proof on the model: inline level for every input and matcher (ComposeShapes.parseBlocks_inline_shapes: every inline node has a valid span and the shape of its construct); block level for every input without NUL, and with NUL before filling / when cuts are aligned (parseFull_block_shapes_*); tie: (kind, span) correspondence plus the shape oracle",
-    "C14": "partial proof: padding clause for any block machine (nb_shift, skip_blank_lines); recognizers insensitive to line-ending style through their declarative definitions; CRLF/CR and final-newline clauses decided by correspondence on the variants plus the oracle",
+    "C14": "partial proof: padding clause on the concrete machine for every input (parseBlocks_blank_prefix); CR clause at the block layer for every input (parseBlocks_cr); recognizers insensitive to the line-ending style; final-newline and CRLF clauses: exact tree relations refuted unrestricted (one is finding D24), proved only bounded-exhaustively (thorough tier); decided by correspondence on the variants plus the oracle",
     "C15": "full proof on the model: every recognizer equals (or is sound and complete for) its declarative definition on every line, classifiers over all 256 bytes, e-mail grammar, URI alphabet / well-formed escapes / idempotence; classifier bodies and constants are regenerated from /repo's source on every run (TieClassify.v, TieBlocks.v, TieRender.v); recognizers tied by exhaustive correspondence through the verif hook",
-    "C16": "re-parse oracle on the implementation (every root block re-parsed and compared node by node) plus model/implementation tree correspondence; supporting invariants machine-checked; no theorem states the re-parse property yet",
+    "C16": "partial proof: the re-parse property proved end to end on a slice (any number of one-line text paragraphs: SliceReparse.C16_reparse_paras); for general documents: re-parse oracle on the implementation (every root block re-parsed, also under one-byte reads, and compared node by node) plus model/implementation tree correspondence",
     "C17": "full proof on the model: first clause for whole documents (C17_only_lt_escaped); second clause for every input and every prefix-closed predicate against a WHATWG data-state tokenizer fragment (C17_no_rejected_start_renderDoc, no side condition); tie: model renderer+filter on the implementation's tree, filterRaw through the hook; oracle uses x/net/html's tokenizer",
     "C18": "full proof: the explicit-stack Walk equals the recursive traversal for every tree and every callback pair over any user state (run_refines_spec), cursor invariant at every callback (walk_cursors_ok), visit-once (visit_once); tie: event traces of the extracted model vs walk.go on the implementation's trees under random policies",
     "C19": "generic schedule-independence / race-freedom theorem (Interleave) whose premise is instantiated by an effect summary regenerated from /repo's typed AST on every run (no global writes, no stores through shared tree/renderer types on the read-only side), plus a -race build running the concurrent workload; the classification's soundness and the Go memory model are trusted",
-    "C20": "full proof of clause 1 on the formatWriter model (sticky first error, no write after it, healthy writer gives no error); clause 2 (round trip on the construct set fixed in DESIGN.md) decided by the oracle on generated canonical documents; tie: formatter model on the implementation's tree = implementation's bytes",
+    "C20": "full proof of clause 1 on the formatWriter model (sticky first error, no write after it, healthy writer gives no error); clause 2 proved end to end on a slice (one-line text paragraphs: formatting preserves the rendering and is idempotent, SliceFormat) and otherwise decided by the oracle on generated canonical documents; tie: formatter model on the implementation's tree = implementation's bytes",
 }
-CATEGORY = {"C06": "other", "C09": "other", "C16": "other", "C19": "other"}
+CATEGORY = {"C19": "other"}
 TECH = {
     "C19": "Coq theorem + generated effect summary + race detector",
-    "C06": "denotation oracle + model/implementation correspondence (Coq model)",
-    "C09": "metamorphic oracle + model/implementation correspondence (Coq model)",
-    "C16": "metamorphic oracle + model/implementation correspondence (Coq model)",
+    "C06": "Coq proof on slices + denotation oracle + model/implementation correspondence (Coq model)",
+    "C09": "Coq proof on slices + metamorphic oracle + model/implementation correspondence (Coq model)",
+    "C16": "Coq proof on slices + metamorphic oracle + model/implementation correspondence (Coq model)",
 }
 
 
